@@ -65,7 +65,7 @@ structure Eff where
 abbrev Spec := List Eff
 
 def pick (cfg : List Nat) (l : List (Nat × Guard)) : List Nat :=
-  (l.filter fun e => e.2.active cfg).map (·.1)
+  ((l.filter fun e => e.2.active cfg).map (·.1)).eraseDups
 
 def GetterRaw.resolve (cfg : List Nat) (g : GetterRaw) : Eff :=
   { deps := pick cfg g.deps, reads := pick cfg g.reads, writes := pick cfg g.writes,
